@@ -14,6 +14,8 @@ import (
 	"fmt"
 	"io"
 	"log"
+	"os"
+	"runtime"
 	"sort"
 	"strings"
 	"time"
@@ -72,11 +74,14 @@ const (
 	opForeachRemove
 )
 const (
-	opIterNew     = 30
-	opIterHasNext = 31
-	opIterNext    = 32
-	opIterRemove  = 33
-	opProbe       = 40
+	opIterNew      = 30
+	opIterHasNext  = 31
+	opIterNext     = 32
+	opIterRemove   = 33
+	opIterSetValue = 34
+	opProbe        = 40
+	opSetValueAt   = 41
+	opEntryEquals  = 42
 )
 
 const nSlots = 4
@@ -85,6 +90,11 @@ type iter struct {
 	hasNext func() bool
 	next    func() Sx
 	remove  func()
+	// entry iterators: the live entry the last Next returned and the map version then
+	lastE   *treemap.Entry
+	lastVer int
+	// key the last Next returned (entry and key iterators), for the branch histogram
+	lastKey *int64
 }
 
 func kOf(k treemap.KeyType) int64 { return int64(k.(K)) }
@@ -126,30 +136,103 @@ func newIter(m *treemap.Map, kind int64) *iter {
 	switch kind {
 	case 0:
 		it := m.Iterator()
-		return &iter{it.HasNext, func() Sx { return optEntry(it.Next()) }, func() { it.Remove() }}
+		w := &iter{hasNext: it.HasNext, remove: func() { it.Remove() }}
+		w.next = func() Sx { e := it.Next(); w.sawEntry(m, e); return optEntry(e) }
+		return w
 	case 1:
 		it := m.DescendingIterator()
-		return &iter{it.HasNext, func() Sx { return optEntry(it.Next()) }, func() { it.Remove() }}
+		w := &iter{hasNext: it.HasNext, remove: func() { it.Remove() }}
+		w.next = func() Sx { e := it.Next(); w.sawEntry(m, e); return optEntry(e) }
+		return w
 	case 2:
 		it := m.KeyIterator()
-		return &iter{it.HasNext, func() Sx { return optKey(it.Next()) }, func() { it.Remove() }}
+		w := &iter{hasNext: it.HasNext, remove: func() { it.Remove() }}
+		w.next = func() Sx { k := it.Next(); w.sawKey(k); return optKey(k) }
+		return w
 	case 3:
 		it := m.DescendingKeyIterator()
-		return &iter{it.HasNext, func() Sx { return optKey(it.Next()) }, func() { it.Remove() }}
+		w := &iter{hasNext: it.HasNext, remove: func() { it.Remove() }}
+		w.next = func() Sx { k := it.Next(); w.sawKey(k); return optKey(k) }
+		return w
 	case 4:
 		it := m.ValueIterator()
-		return &iter{it.HasNext, func() Sx { return optVal(it.Next()) }, func() { it.Remove() }}
+		return &iter{hasNext: it.HasNext, next: func() Sx { return optVal(it.Next()) }, remove: func() { it.Remove() }}
 	}
 	return nil
 }
 
+func (w *iter) sawEntry(m *treemap.Map, e *treemap.Entry) {
+	w.lastE, w.lastVer = e, m.VerifVersion()
+	if e != nil {
+		w.sawKey(e.GetKey())
+	}
+}
+func (w *iter) sawKey(k treemap.KeyType) {
+	if k != nil {
+		v := kOf(k)
+		w.lastKey = &v
+	}
+}
+
+// the accessors that hand out live entries: 0 first, 1 last, 2 floor, 3 ceiling, 4 higher, 5 lower
+func access(m *treemap.Map, acc, k int64) *treemap.Entry {
+	switch acc {
+	case 0:
+		return m.FirstEntry()
+	case 1:
+		return m.LastEntry()
+	case 2:
+		return m.FloorEntry(K(k))
+	case 3:
+		return m.CeilingEntry(K(k))
+	case 4:
+		return m.HigherEntry(K(k))
+	case 5:
+		return m.VerifLowerEntry(K(k))
+	}
+	return nil
+}
+
+// classify runs the Go port of the model's insertion/deletion on the tree as it is before a
+// Put/Remove and records the fix-up branches taken; after reports whether the port's result
+// is the tree the real code produced.  Only for small trees (the dump is linear).
+const classifyMax = 256
+
+func classify(m *treemap.Map, st *stats, put bool, k, v int64) (after func()) {
+	if m.Size() > classifyMax || m.Size() < 0 {
+		return func() {}
+	}
+	nodes, pok, _, _ := m.VerifDump(classifyMax + 8)
+	if !pok {
+		return func() {}
+	}
+	before := fromDump(nodes)
+	var want *sh
+	if put {
+		want = st.br.put(k, v, before)
+	} else {
+		want = st.br.remove(k, before)
+	}
+	return func() {
+		nodes, pok, _, _ := m.VerifDump(classifyMax + 8)
+		if !pok || !sameTree(want, fromDump(nodes)) {
+			st.br.hit("classifier disagrees with the real tree")
+		}
+	}
+}
+
 type stats struct {
-	mutations, iterRemoves, panics, probes, maxSize int
-	hung                                            bool
+	br                                                         rec
+	mutations, iterRemoves, panics, probes, maxSize, setValues int
+	hung, inconclusive, corrupted                              bool
 }
 
 func dump(m *treemap.Map) Sx {
-	nodes, pok, size, _ := m.VerifDump(1 << 22)
+	lim := m.Size()
+	if lim < 0 {
+		lim = -lim
+	}
+	nodes, pok, size, _ := m.VerifDump(2*lim + 64)
 	l := make([]Sx, 0, 3*len(nodes))
 	for _, n := range nodes {
 		code := int64(1)
@@ -167,10 +250,34 @@ func dump(m *treemap.Map) Sx {
 	return List(Int(int64(size)), Bool(pok), ListOf(l))
 }
 
+// intact reports whether the structure can be walked safely: consistent parent links and as
+// many nodes as the size field says.  The listings and traversals of the real code loop or
+// recurse for ever on a cyclic structure (unbounded memory, fatal stack overflow), so the
+// harness checks before calling them; once a history's structure is corrupted every further
+// operation of that history is answered ((8)) without touching the map.
+func intact(m *treemap.Map) bool {
+	size := m.Size()
+	if size < 0 {
+		return false
+	}
+	nodes, pok, _, _ := m.VerifDump(2*size + 64)
+	return pok && len(nodes) == size
+}
+
 // one operation on the real map
 func apply(m *treemap.Map, its *[nSlots]*iter, op Sx, st *stats) Sx {
 	code := op.At(0).Int64()
 	arg := func(i int) int64 { return op.At(i).Int64() }
+	if st.corrupted {
+		return List(Ints(8))
+	}
+	switch code {
+	case opKeys, opValues, opInOrder, opPreOrder, opPostOrder, opForeach, opForeachRemove:
+		if !intact(m) {
+			st.corrupted = true
+			return List(Ints(8))
+		}
+	}
 	entries := func(walk func(treemap.EntryAction)) Sx {
 		var l []Sx
 		walk(func(k treemap.KeyType, v interface{}) { l = append(l, Int(kOf(k)), Int(vOf(v))) })
@@ -179,13 +286,17 @@ func apply(m *treemap.Map, its *[nSlots]*iter, op Sx, st *stats) Sx {
 	switch code {
 	case opPut:
 		before := m.Size()
+		after := classify(m, st, true, arg(1), arg(2))
 		r := optVal(m.Put(K(arg(1)), arg(2)))
+		after()
 		if m.Size() != before {
 			st.mutations++
 		}
 		return r
 	case opRemove:
+		after := classify(m, st, false, arg(1), 0)
 		ok := m.Remove(K(arg(1)))
+		after()
 		if ok {
 			st.mutations++
 		}
@@ -293,7 +404,12 @@ func apply(m *treemap.Map, its *[nSlots]*iter, op Sx, st *stats) Sx {
 				res = it.next()
 			default:
 				before := m.Size()
+				after := func() {}
+				if it.lastKey != nil {
+					after = classify(m, st, false, *it.lastKey, 0)
+				}
 				it.remove()
+				after()
 				res = List()
 				if m.Size() != before {
 					st.iterRemoves++
@@ -309,6 +425,30 @@ func apply(m *treemap.Map, its *[nSlots]*iter, op Sx, st *stats) Sx {
 	case opProbe:
 		st.probes++
 		return dump(m)
+	case opIterSetValue:
+		slot := arg(1)
+		if slot < 0 || slot >= nSlots || its[slot] == nil {
+			return List()
+		}
+		it := its[slot]
+		if it.lastE == nil || it.lastVer != m.VerifVersion() {
+			return List() // no live entry: not applicable
+		}
+		st.setValues++
+		return optVal(it.lastE.SetValue(arg(2)))
+	case opSetValueAt:
+		e := access(m, arg(1), arg(2))
+		if e == nil {
+			return List()
+		}
+		st.setValues++
+		return optVal(e.SetValue(arg(3)))
+	case opEntryEquals:
+		e1, e2 := access(m, arg(1), arg(2)), access(m, arg(3), arg(4))
+		if e1 == nil || e2 == nil {
+			return List()
+		}
+		return Bool(e1.Equals(e2))
 	}
 	panic(fmt.Sprintf("c10: unknown op %s", op.String()))
 }
@@ -316,9 +456,37 @@ func apply(m *treemap.Map, its *[nSlots]*iter, op Sx, st *stats) Sx {
 var last stats
 
 // run replays one history on a fresh map.  A history that does not finish within the time
-// limit (a corrupted structure can make the code's loops spin) is reported with the results
-// obtained so far; the replay then fails to decode, which the check reports.
+// limit (5 s + 2 ms per operation; a corrupted structure can make the code's loops spin, an
+// overloaded machine can merely be slow) is replayed once more with a six times longer limit: only a history that times out
+// twice counts as hung (its results so far are recorded; the replay then fails to decode, which
+// the check reports); a timeout that does not reproduce is counted as inconclusive.
 func run(in Sx) Sx {
+	// generous limits: a history of a few hundred operations takes well under a millisecond
+	limit := 5*time.Second + time.Duration(in.Len())*2*time.Millisecond
+	outs, st, ok := runOnce(in, limit)
+	if !ok {
+		if blowup || confirmedHangs > 0 {
+			// a hang has already been reproduced in this run: do not confirm each further one
+			st = stats{hung: true}
+		} else if outs, st, ok = runOnce(in, 6*limit); ok {
+			st.inconclusive = true
+		} else {
+			st = stats{hung: true}
+		}
+		if st.hung {
+			confirmedHangs++
+		}
+	}
+	last = st
+	return ListOf(outs)
+}
+
+// number of histories that timed out twice (every one leaks a spinning goroutine)
+var confirmedHangs int
+
+const maxHangs = 3
+
+func runOnce(in Sx, limit time.Duration) ([]Sx, stats, bool) {
 	type result struct {
 		out []Sx
 		st  stats
@@ -329,16 +497,15 @@ func run(in Sx) Sx {
 	go func() {
 		m := treemap.New()
 		var its [nSlots]*iter
-		var st stats
+		st := stats{br: rec{}}
 		outs := make([]Sx, 0, in.Len())
 		for i := 0; i < in.Len(); i++ {
 			op := in.At(i)
 			var r Sx
-			panicked, val := Catch(func() { r = apply(m, &its, op, &st) })
+			panicked, _ := Catch(func() { r = apply(m, &its, op, &st) })
 			if panicked {
 				st.panics++
 				r = List(Ints(9))
-				_ = val
 			}
 			if s := m.Size(); s > st.maxSize {
 				st.maxSize = s
@@ -348,22 +515,49 @@ func run(in Sx) Sx {
 		}
 		done <- result{outs, st}
 	}()
-	select {
-	case r := <-done:
-		last = r.st
-		return ListOf(r.out)
-	case <-time.After(20 * time.Second):
+	drain := func() []Sx {
 		var outs []Sx
 		for len(partial) > 0 {
 			outs = append(outs, <-partial)
 		}
-		last = stats{hung: true}
-		return ListOf(outs)
+		return outs
+	}
+	select {
+	case r := <-done:
+		return r.out, r.st, true
+	case <-time.After(limit):
+		return drain(), stats{}, false
+	case <-memAlarm:
+		blowup = true
+		return drain(), stats{}, false
+	}
+}
+
+// Memory watchdog: a cyclic structure makes Keys()/Values()/the traversals of the real code
+// append for ever.  A goroutine cannot be killed, so when the heap passes the limit the current
+// history is reported and the run is wound up (emit) before the machine starts swapping.
+const heapLimit = 2 << 30
+
+var (
+	memAlarm = make(chan struct{})
+	blowup   bool
+)
+
+func watchMemory() {
+	var ms runtime.MemStats
+	for {
+		time.Sleep(200 * time.Millisecond)
+		runtime.ReadMemStats(&ms)
+		if ms.HeapAlloc > heapLimit {
+			close(memAlarm)
+			return
+		}
 	}
 }
 
 func main() {
 	log.SetOutput(io.Discard)
+	go watchMemory()
 	Main(run, gen)
 }
 
@@ -384,7 +578,15 @@ func (h *hist) key() int64 { return h.lo + int64(h.rng.Intn(int(h.hi-h.lo))) }
 
 // a key from the universe or just outside it (absent neighbours at both ends)
 func (h *hist) qkey() int64 { return h.lo - 2 + int64(h.rng.Intn(int(h.hi-h.lo)+4)) }
-func (h *hist) val() int64  { h.vals++; return h.vals*7 + int64(h.rng.Intn(5)) }
+
+// mostly fresh values; one in four from {1,2,3} so that different keys share a value
+func (h *hist) val() int64 {
+	if h.rng.Intn(4) == 0 {
+		return 1 + int64(h.rng.Intn(3))
+	}
+	h.vals++
+	return h.vals*7 + int64(h.rng.Intn(5))
+}
 func (h *hist) maybeProbe() {
 	if h.rng.Intn(100) < h.probeP {
 		h.add(opProbe)
@@ -467,8 +669,14 @@ func (h *hist) randomOp() {
 		h.add(opIsEmpty)
 	case w < 60:
 		h.add(int64(r.PickInt(opFirstEntry, opFirstKey, opLastEntry, opLastKey)))
-	case w < 74:
+	case w < 70:
 		h.add(int64(r.PickInt(opFloorEntry, opFloorKey, opCeilingEntry, opCeilingKey, opHigherEntry, opHigherKey, opLowerEntry)), h.qkey())
+	case w < 72:
+		h.add(opSetValueAt, int64(r.Intn(6)), h.qkey(), h.val())
+	case w < 73:
+		h.add(opEntryEquals, int64(r.Intn(6)), h.qkey(), int64(r.Intn(6)), h.qkey())
+	case w < 74:
+		h.add(opIterSetValue, int64(r.Intn(nSlots)), h.val())
 	case w < 76:
 		h.add(opKeys)
 	case w < 77:
@@ -501,6 +709,10 @@ func (h *hist) randomOp() {
 
 // the final queries of every history
 func (h *hist) finish() {
+	// two different live entries made to hold the same value, then compared
+	h.add(opSetValueAt, 0, 0, 5)
+	h.add(opSetValueAt, 1, 0, 5)
+	h.add(opEntryEquals, 0, 0, 1, 0)
 	h.add(opSize)
 	h.add(opKeys)
 	h.add(opProbe)
@@ -513,6 +725,9 @@ func (h *hist) iterate(kind int64, slot int64, policy int, steps int) {
 	for i := 0; i < steps; i++ {
 		h.add(opIterHasNext, slot)
 		h.add(opIterNext, slot)
+		if h.rng.Intn(5) == 0 {
+			h.add(opIterSetValue, slot, h.val())
+		}
 		rm := false
 		switch policy {
 		case 1:
@@ -542,12 +757,34 @@ func gen(a Args, out *Out) {
 	if a.Thorough() {
 		scale = 24
 	}
+	branches := rec{}
 	emit := func(kind string, h *hist) {
+		if confirmedHangs >= maxHangs {
+			out.Count("histories skipped after repeated hangs")
+			return
+		}
 		in := ListOf(h.ops)
 		obs := run(in)
 		st := last
+		if blowup {
+			out.Violation("C10/memory-blowup/"+kind, "a history made the code allocate without bound (a listing or traversal loops on a corrupted structure); run wound up", in)
+			out.Case(kind, true, in, obs)
+			out.Note("run wound up early: heap limit exceeded by a spinning history")
+			out.Close()
+			os.Exit(0)
+		}
 		if st.hung {
-			out.Violation("C10/hang/"+kind, "a history did not finish within 20 s (the code's loops spin on a corrupted structure)", in)
+			out.Violation("C10/hang/"+kind, "a history did not finish within its time limit (5 s + 2 ms per operation) and again not within six times that (the code's loops spin on a corrupted structure)", in)
+		}
+		if st.inconclusive {
+			out.Count("timeouts that did not reproduce (inconclusive, not reported)")
+		}
+		for b, n := range st.br {
+			branches[b] += n
+		}
+		out.CountN("SetValue on live entries", st.setValues)
+		if st.corrupted {
+			out.Count("histories with a corrupted structure (parent links / node count)")
 		}
 		out.Case(kind, st.mutations > 0, in, obs)
 		out.CountN("ops", len(h.ops))
@@ -627,6 +864,9 @@ func gen(a Args, out *Out) {
 		kind := int64(c % 5)
 		h.add(opIterNew, kind, 0)
 		pre := h.rng.Intn(n)
+		if c%11 == 0 {
+			pre = n + 1 // exhaust the iterator first: no-such-element takes precedence afterwards
+		}
 		for i := 0; i < pre; i++ {
 			h.add(opIterNext, 0)
 			if h.rng.Intn(3) == 0 {
@@ -688,6 +928,99 @@ func gen(a Args, out *Out) {
 		h.iterate(int64(c%5), 0, 2, 40)
 		h.finish()
 		emit("build-"+order, h)
+	}
+	// 5. churn: long put/remove runs over 12..16 keys (a colour-only corruption needs a few hundred
+	// further operations on the same small tree before it becomes a height-bound failure)
+	for c := 0; c < 20*scale; c++ {
+		u := int64(12 + c%5)
+		h := &hist{rng: rng.Fork(), lo: 0, hi: u, probeP: 0}
+		nops := 300 + h.rng.Intn(101)
+		for i := 0; i < nops; i++ {
+			if h.rng.Bool() {
+				h.add(opPut, h.key(), h.val())
+			} else {
+				h.add(opRemove, h.key())
+			}
+			if i%8 == 7 {
+				h.add(opProbe)
+			}
+		}
+		h.finish()
+		emit("churn", h)
+	}
+	// 6. directed: every red-black tree (shape and colours) that put/remove scripts can reach, up to
+	// a node count; on each one, every single removal and every single insertion into a gap, with
+	// a probe after it.  Quick: all trees up to 8 nodes and a seeded sample of the larger ones.
+	maxNodes := 10
+	if a.Thorough() {
+		maxNodes = 12
+	}
+	shapes := enumerateShapes(maxNodes)
+	srng := rng.Fork()
+	nshape, big := 0, 0
+	for _, s := range shapes {
+		if count(s.t) > 8 {
+			big++
+		}
+	}
+	for _, s := range shapes {
+		n := count(s.t)
+		if n > 8 && !a.Thorough() && srng.Intn(big) >= 40 {
+			continue // quick: a seeded sample of about 40 of the larger trees
+		}
+		nshape++
+		h := &hist{rng: srng.Fork()}
+		ks := inorderKeys(s.t, nil)
+		rebuild := func() {
+			for _, o := range s.script {
+				if o[0] == 1 {
+					h.add(opPut, o[1], h.val())
+				} else {
+					h.add(opRemove, o[1])
+				}
+			}
+		}
+		first := true
+		one := func(op, key int64) {
+			if !first {
+				h.add(opClear)
+			}
+			first = false
+			rebuild()
+			if op == 1 {
+				h.add(opPut, key, h.val())
+			} else {
+				h.add(opRemove, key)
+			}
+			h.add(opProbe)
+		}
+		for _, k := range ks {
+			one(2, k)
+		}
+		for _, g := range gapKeys(ks, int64(1)<<40) {
+			one(1, g)
+		}
+		h.finish()
+		emit(fmt.Sprintf("shapes-%d", n), h)
+		out.Count(fmt.Sprintf("directed: reachable red-black trees with %d nodes used", n))
+	}
+	bySize := map[int]int{}
+	for _, s := range shapes {
+		bySize[count(s.t)]++
+	}
+	out.Note("directed class: %d red-black trees (shape+colours) with <= %d nodes are reachable by put/remove scripts (by node count: %v); %d used in this run, each with every single removal and every single insertion",
+		len(shapes), maxNodes, bySize, nshape)
+	for _, b := range allBranches {
+		out.CountN("branch: "+b, branches[b])
+	}
+	for b, n := range branches {
+		known := false
+		for _, x := range allBranches {
+			known = known || x == b
+		}
+		if !known {
+			out.CountN("branch: "+b, n)
+		}
 	}
 	goSweep(a, rng.Fork(), out)
 }
@@ -757,14 +1090,48 @@ func invariants(m *treemap.Map, ref map[int64]int64) string {
 	return bad
 }
 
+// goSweep runs every build under a watchdog (the real code's loops may spin on a corrupted
+// structure); results are merged only from builds that finished.
 func goSweep(a Args, rng *Rng, out *Out) {
 	sizes := []int{100000}
 	if a.Thorough() {
 		sizes = []int{100000, 300000, 1000000}
 	}
+	if confirmedHangs > 0 {
+		out.Note("Go-side sweep skipped: histories hung in this run")
+		return
+	}
 	for _, n := range sizes {
 		for _, order := range orders {
-			h := &hist{rng: rng.Fork(), lo: 0, hi: int64(n)}
+			sub := &Out{Hist: map[string]int{}}
+			done := make(chan struct{})
+			jobRng := rng.Fork()
+			go func() { defer close(done); sweepOne(n, order, jobRng, sub) }()
+			select {
+			case <-done:
+				out.GoChecked += sub.GoChecked
+				out.GoViol = append(out.GoViol, sub.GoViol...)
+				for k, v := range sub.Hist {
+					out.CountN(k, v)
+				}
+			case <-memAlarm:
+				out.Violation("C10/memory-blowup/go-sweep-"+order, fmt.Sprintf("build/removal/drain of %d keys in %s order allocates without bound", n, order), List(Ints(int64(n))))
+				out.Close()
+				os.Exit(0)
+			case <-time.After(300 * time.Second):
+				out.Violation("C10/hang/go-sweep-"+order, fmt.Sprintf("build/removal/drain of %d keys in %s order did not finish within 300 s", n, order), List(Ints(int64(n))))
+				out.Note("Go-side sweep abandoned after a hang")
+				return
+			}
+		}
+	}
+	out.Note("Go-side sweep: builds of %v keys in sorted/reverse/zigzag/random order, removals and an iterator drain; invariants (order, reference entries, size, parent links, red-black rules, height bound) evaluated on the real tree", sizes)
+}
+
+func sweepOne(n int, order string, rng *Rng, out *Out) {
+	{
+		{
+			h := &hist{rng: rng, lo: 0, hi: int64(n)}
 			ks := h.keysInOrder(order, n)
 			m := treemap.New()
 			ref := map[int64]int64{}
@@ -820,5 +1187,4 @@ func goSweep(a Args, rng *Rng, out *Out) {
 			out.Count("go sweep builds")
 		}
 	}
-	out.Note("Go-side sweep: builds of %v keys in sorted/reverse/zigzag/random order, removals and an iterator drain; invariants (order, reference entries, size, parent links, red-black rules, height bound) evaluated on the real tree", sizes)
 }
